@@ -169,7 +169,10 @@ def _cloud(model):
     from nuspacesim.config import NssConfig
     from nuspacesim.simulation.atmosphere.clouds import CloudTopHeight
 
-    return CloudTopHeight(NssConfig(simulation={"cloud_model": model}))
+    cfg = NssConfig(simulation={"cloud_model": model})
+    f = CloudTopHeight(cfg)
+    f._nssverif_config = cfg  # (harness bookkeeping: the configuration object this model was built from)
+    return f
 
 
 def _bracket_nodes(axis, x):
@@ -232,6 +235,29 @@ def body_models(case):
             if abs(lat_deg) > 10 and abs(lon_wrapped - lat_deg) > 10:
                 labels.add("discriminating_location")
         labels.add("pressure_map")
+    # what a worker process receives is a pickled copy of the cloud model object: it answers like the object itself -
+    # also when the configuration the object was built from has been edited in the meantime
+    import cloudpickle
+
+    from ..core import live_edit
+
+    def answers(obj):
+        return [np.asarray(obj(la, lo)).tobytes() for la, lo in locs]
+
+    class _Holder:
+        pass
+
+    with cut("pickled copy of the cloud model object"):
+        mine = answers(f)
+        require(answers(cloudpickle.loads(cloudpickle.dumps(f))) == mine, "a pickled copy of the cloud model object (what a worker process receives) returns other cloud tops than the object")
+        if kind != "none" and case.get("edit_level"):
+            h = _Holder()
+            h.config = f._nssverif_config
+            other = {"altitude": (case["altitude"] if math.isfinite(case.get("altitude", 0.0)) else 0.0) + 3.3} if kind == "mono" else {"month": case["month"] % 12 + 1}
+            live_edit(h, ("simulation", "cloud_model"), other, case["edit_level"])
+            now = answers(f)
+            require(answers(cloudpickle.loads(cloudpickle.dumps(f))) == now, f"after the configuration was edited ({case['edit_level']}: {other}) a pickled copy of the cloud model object returns other cloud tops than the object itself")
+            labels.add("pickled_after_config_edit")
     return labels
 
 
@@ -252,10 +278,10 @@ loc_st = st.tuples(lat_st, lon_st).map(list)
 model_case = st.one_of(
     st.fixed_dictionaries({"kind": st.just("none"), "locs": st.lists(loc_st, min_size=2, max_size=6)}),
     st.fixed_dictionaries(
-        {"kind": st.just("mono"), "altitude": st.one_of(st.floats(-5.0, 70.0), st.sampled_from([math.inf, -math.inf, 0.0, 5.3])), "locs": st.lists(loc_st, min_size=2, max_size=6)}
+        {"kind": st.just("mono"), "altitude": st.one_of(st.floats(-5.0, 70.0), st.sampled_from([math.inf, -math.inf, 0.0, 5.3])), "locs": st.lists(loc_st, min_size=2, max_size=6), "edit_level": st.sampled_from([None, "leaf", "submodel", "section"])}
     ),
-    st.fixed_dictionaries({"kind": st.just("map"), "month": st.integers(1, 12), "locs": st.lists(loc_st, min_size=2, max_size=10)}),
-    st.fixed_dictionaries({"kind": st.just("map"), "month": st.integers(1, 12), "locs": st.lists(loc_st, min_size=2, max_size=10)}),
+    st.fixed_dictionaries({"kind": st.just("map"), "month": st.integers(1, 12), "locs": st.lists(loc_st, min_size=2, max_size=10), "edit_level": st.sampled_from([None, "leaf", "submodel", "section"])}),
+    st.fixed_dictionaries({"kind": st.just("map"), "month": st.integers(1, 12), "locs": st.lists(loc_st, min_size=2, max_size=10), "edit_level": st.just(None)}),
 )
 
 
@@ -272,6 +298,13 @@ def body_site(case):
     E = np.array([energy(e[2]) for e in ev])
     lat = np.array([e[3] for e in ev])
     lon = np.array([e[4] for e in ev])
+    spread = case.get("spread")
+    if spread:
+        # all events within a relative `spread` of the first one's position (a point source, a compact region):
+        # still one query per event, each at that event's own position
+        k_ = np.arange(n, dtype=np.float64)
+        lat = np.clip(lat[0] * (1.0 + spread * k_) + (spread * k_ if lat[0] == 0.0 else 0.0), -0.5 * math.pi, 0.5 * math.pi)
+        lon = lon[0] * (1.0 - spread * k_) + (spread * k_ if lon[0] == 0.0 else 0.0)
     seen = []
 
     def cloudf(la, lo):
@@ -285,7 +318,7 @@ def body_site(case):
     inside = (alt >= 0) & (alt <= 20)
     want = sorted(zip(lat[inside].tolist(), lon[inside].tolist()))
     require(sorted(seen) == want, f"cloud model queried at {sorted(seen)}, events are at {want}")
-    return {"site"} | ({"mixed_range"} if (~inside).any() else set())
+    return {"site"} | ({"mixed_range"} if (~inside).any() else set()) | ({"narrow_spread"} if spread and n >= 2 else set())
 
 
 SUBCHECKS = [
@@ -321,7 +354,7 @@ SUBCHECKS = [
     ),
     SubCheck(
         "event_site",
-        st.fixed_dictionaries({"events": st.lists(st.tuples(beta_u, st.one_of(alt_u, st.sampled_from([-1.0, 25.0])), loge_u, lat_st, lon_st).map(list), min_size=1, max_size=6)}),
+        st.fixed_dictionaries({"events": st.lists(st.tuples(beta_u, st.one_of(alt_u, st.sampled_from([-1.0, 25.0])), loge_u, lat_st, lon_st).map(list), min_size=1, max_size=6), "spread": st.sampled_from([None, None, 1e-12, 1e-9, 1e-7, 1e-6, 1e-5])}),
         body_site,
         lambda labels: True,
         {"quick": 36, "thorough": 1000},
